@@ -105,6 +105,8 @@ NeverSilent == status = "loaded" => WellFormed(def)
 ASSUME PrintT(<<"DEFS", ToJson([defs |-> AllDefs])>>)
 
 \* the rule for pure-Python definitions: make_source's 2-D consistency test does not apply
+\* and oriented pure-Python definitions are refused outright ("oriented python models not supported")
 WellFormedPy(d) == /\ \A k \in 1..Len(d.rows) : RowOK(d.rows[k])
                    /\ NoDuplicates(d.rows) /\ ControlsOK(d.rows) /\ AnglesOK(d.rows)
+                   /\ ~Oriented(d.rows)
 =============================================================================
